@@ -598,6 +598,116 @@ pub fn run_engine(opts: &Opts, traces: bool) {
 	w.finish(meta, &opts.out);
 }
 
+/// `c01b`: argument binding.  Every parameter list of length <= 3 (each with/without default) x
+/// every positional count 0..=n+1 x every named-argument list of length <= 3 over the parameter
+/// names plus an unknown name (duplicates included), run through a real call expression.
+pub fn run_bind(opts: &Opts) {
+	use jrsonnet_evaluator::error::ErrorKind;
+	let env = new_env();
+	let _g = env.state.enter();
+	let mut w = CaseWriter::new(&opts.out);
+	let pnames = ["a", "b", "c"];
+	let mut kinds: BTreeMap<String, usize> = BTreeMap::new();
+	for n in 0..=3usize {
+		for flags in 0..(1u32 << n) {
+			let params: Vec<(String, bool)> =
+				(0..n).map(|i| (pnames[i].to_string(), flags & (1 << i) != 0)).collect();
+			let mut alphabet: Vec<String> = pnames[..n].iter().map(|s| (*s).to_string()).collect();
+			alphabet.push("zz".into());
+			// all named lists of length 0..=3 over the alphabet
+			let mut lists: Vec<Vec<String>> = vec![vec![]];
+			let mut frontier: Vec<Vec<String>> = vec![vec![]];
+			for _ in 0..3 {
+				let mut next = Vec::new();
+				for l in &frontier {
+					for a in &alphabet {
+						let mut l2 = l.clone();
+						l2.push(a.clone());
+						next.push(l2);
+					}
+				}
+				lists.extend(next.iter().cloned());
+				frontier = next;
+			}
+			for npos in 0..=n + 1 {
+				for named in &lists {
+					let ps: Vec<String> = params
+						.iter()
+						.enumerate()
+						.map(|(i, (nm, d))| if *d { format!("{nm} = {}", 300 + i) } else { nm.clone() })
+						.collect();
+					let mut args: Vec<String> = (0..npos).map(|i| (100 + i).to_string()).collect();
+					for (j, nm) in named.iter().enumerate() {
+						args.push(format!("{nm} = {}", 200 + j));
+					}
+					let body: Vec<String> = params.iter().map(|p| p.0.clone()).collect();
+					for style in 0..2 {
+						let src = if style == 0 {
+							format!("local f({}) = [{}]; f({})", ps.join(", "), body.join(", "), args.join(", "))
+						} else {
+							format!("(function({}) [{}])({})", ps.join(", "), body.join(", "), args.join(", "))
+						};
+						let r = guarded(|| {
+							env.state
+								.evaluate_snippet("<bind>".to_owned(), src.clone())
+								.and_then(|v| v.manifest(JsonFormat::minify()))
+						});
+						let ans = match r {
+							Ok(Ok(text)) => {
+								let v: Value = serde_json::from_str(&text).unwrap_or(Value::Null);
+								let srcs: Vec<Value> = v
+									.as_array()
+									.map(|a| {
+										a.iter()
+											.map(|x| {
+												let k = x.as_f64().unwrap_or(-1.0) as i64;
+												match k {
+													100..=199 => json!(["pos", k - 100]),
+													200..=299 => json!(["named", k - 200]),
+													300..=399 => json!(["dflt"]),
+													_ => json!(["?", k]),
+												}
+											})
+											.collect()
+									})
+									.unwrap_or_default();
+								json!({"ok": srcs})
+							}
+							Ok(Err(e)) => {
+								let k = match e.error() {
+									ErrorKind::TooManyArgsFunctionHas(..) => "tooMany",
+									ErrorKind::UnknownFunctionParameter(..) => "unknown",
+									ErrorKind::BindingParameterASecondTime(..) => "twice",
+									ErrorKind::FunctionParameterNotBoundInCall(..) => "unbound",
+									_ => "other",
+								};
+								json!({"err": k, "_msg": format!("{}", e.error())})
+							}
+							Err(p) => json!({"panic": p}),
+						};
+						let key = ans.get("err").and_then(Value::as_str).unwrap_or(if ans.get("ok").is_some() { "ok" } else { "panic" }).to_string();
+						*kinds.entry(key).or_default() += 1;
+						let ps_json: Vec<Value> = params.iter().map(|(nm, d)| json!([nm, d])).collect();
+						w.case(
+							json!({"op":"bind.call","params":ps_json,"npos":npos,"named":named,"src":src,"size":n+npos+named.len()}),
+							ans,
+						);
+					}
+				}
+			}
+		}
+	}
+	let meta = json!({
+		"engine":"c01b","cases":w.n,"outcome_hist":kinds,
+		"rule":"exhaustive: parameter lists of length 0..3 x default flags x positional count 0..n+1 x all named-argument lists of length 0..3 over the parameter names and one unknown name, each as `local f(..)` and as a function literal; observed: which argument each parameter received, or the ErrorKind variant"
+	});
+	w.finish(meta, &opts.out);
+}
+
 pub fn run(opts: &Opts) {
-	run_engine(opts, false);
+	if opts.engine == "c01b" {
+		run_bind(opts);
+	} else {
+		run_engine(opts, false);
+	}
 }
